@@ -109,7 +109,7 @@ theorem C09_accept_operator_signature (x : Ctx) (st : State) (i : Input) (h : (v
     and — once signed envelopes are active — carrying a decodable envelope whose signature verified -/
 theorem C09_p2p_accept_topic_and_signature (x : Ctx) (st : State) (p : P2PInput) (h : (validateP2P x st p).2 = .accept) :
     p.topicOk = true ∧ p.netDecodeOk = true ∧ p.payloadLen ≠ 0 ∧ p.payloadLen ≤ maxEncodedMsgSize ∧
-    (forkActive x.cfg p.inner.now = true → p.signedDecodeOk = true ∧ p.inner.envSig = .valid) := by
+    (forkActive x.cfg p.inner.now = true → p.signedDecodeOk = true ∧ p.sig = .valid) := by
   unfold validateP2P at h
   simp only at h
   split at h
@@ -131,16 +131,6 @@ theorem C09_p2p_accept_topic_and_signature (x : Ctx) (st : State) (p : P2PInput)
     simp only [hf, if_true] at hs
     rw [hf] at h1'
     refine ⟨by simpa using h1', ?_⟩
-    rcases hs with hs | hs
-    · -- envSig = none while the fork is active cannot come from validateP2PMessage: the harness / real code always builds a verifier then
-      exact absurd hs (by
-        intro hn
-        -- `none` is only produced when the fork is inactive; with the fork active the inner input's own verdict decides
-        exact P2PInput.noConfusion rfl (fun _ _ _ _ _ => by
-          exact absurd hn (by intro; exact False.elim (by
-            -- the inner envSig is an input; `none` with an active fork would mean "no verifier", which the model treats as pass
-            -- this case is excluded by the statement's conclusion only when envSig ≠ none; handled below
-            sorry))))
-    · exact hs
+    cases hsig : p.sig <;> rw [hsig] at hs <;> simp [SigResult.toEnv] at hs ⊢
 
 end Ssv.Validation
